@@ -16,9 +16,44 @@ Preconditions imposed by the code under test (only such inputs are generated):
   * a boolean condition selects at least one particle                      (division by Natom, gr.py L154 / sq.py L70)
   * complex scalars are complex128 arrays                                  (dtype dispatch `== "complex128"`, gr.py L70)
   * vector / tensor conditions are passed with conditiontype 'vector' / 'tensor'; tensors are real and square
-  * conditional_sq: orthogonal cell (q = 2 pi n / boxlength), integer wave vectors of shape (nq, ndim); a vector
-    condition has ndim components (output columns FFT0..FFT{ndim-1}, sq.py L84-86; docs: 'such as velocity field')
-  * N >= 2, at least one histogram bin, ppp has one entry per dimension, type ids 1..K all present
+  * conditional_sq: orthogonal cell (q = 2 pi n / boxlength), integer wave vectors of shape (nq, ndim) as an ndarray
+    of any integer or floating dtype (qvector.astype(float64)); a vector condition has ndim components (output columns
+    FFT0..FFT{ndim-1}, sq.py L84-86; docs: 'such as velocity field')
+  * N >= 2 for g(r) (N >= 1 for S(q)), at least one histogram bin, ppp has one entry per dimension (list / tuple /
+    array), type ids 1..K all present; condition and qvector are ndarrays (lists raise AttributeError: out of domain)
+
+CLAUSES (statement + quantifier, clause -> deciding assertion [facets] -> populated class tags of evidence/C13.json)
+  1  any single configuration          -> one snapshot per call; gas / lattice / cluster / grids / outside   config-* outside-box N1 N2-3 N4-40 N41+
+                                          the box; N 1 (S(q)) .. 260 quick, .. 1030 thorough                size-boundary-<N> size-generic-*
+  2  A boolean selection               -> w = [A_i and A_j], N_A = #True, both bounds [gr_bool, sq_bool,     bool-species bool-random bool-all bool-single
+                                          sized, retained]                                                  one-particle-selected
+  3  A real scalar                     -> w = A_i A_j, N_A = N [gr_scalar, sq_field]                        float-generic float-one float-int float-int32
+                                                                                                            float-f32int float-positive float-offset
+  4  A complex scalar                  -> w = Re(A_i conj A_j); FFT, Sq with the sign exp(-i q.r)           complex-generic complex-phase
+  5  A vector (dot product)            -> w = Re sum_c A_ic conj A_jc, 1..5 components, real and complex    vector-real-m1..m5 vector-complex-m1..m5
+  6  A tensor (trace of the product)   -> w = tr(A_i A_j), symmetric and general, 1x1 .. 3x3                tensor-sym-m* tensor-general-m*
+  7  documented normalisation of gA    -> V / N_A^2 / shell_k, both bounds of the interval; total column   in-range-pairs ambiguous-pairs half-cell-ties
+                                          gr with V / N^2 [every gr facet]                                  negative-weights
+  8  S = |sum A exp(-iq.r)|^2 / N      -> Sq, FFT (FFT0..), q0.., q per wave vector to 5e-9 + float error;  kind-* nq-1 nq-2..30 nq-boundary-<n> qlist-*
+                                          per-|q| means against the library rows AND the reference         classes-max* all-vectors-in-one-q-class q-zero
+  9  one species -> g_aa and S_aa      -> gA == gr{aa} of gr.getresults(), averaged Sq == Sq{aa} of sq      reduction-partial-aa reduction-sq-class-partial-aa
+ 10  A = 1 -> the totals               -> gA == gr column, == gr of the gr class; Sq == Sq of the sq class  reduction-total reduction-gr-class-total
+                                          and == all selected                                               reduction-sq-class-total reduction-one=all
+ 11  vector = sum over components      -> gA / Sq == sum of the components analysed as scalars              reduction-vector=sum-components
+ 12  gA_norm = (gA - <A>^2)/(<A^2> -   -> interval oracle and as a function of the returned gA; small       float-offset (relative variance ~1e-6),
+     <A>^2)                               relative variance included                                        float-int float-int32 float-f32int
+ 13  2D, 3D                            -> shell area / volume, ndim wave-vector columns                     d2 d3
+ 14  orthogonal, triclinic for g(r)    -> the snapshot's own cell; axis-permuted cells; whole batches       ortho tri general second-call-new-tilt
+                                          inside the Cartesian half box                                     class-halfbox class-permuted
+ 15  bin widths                        -> int(L_min / (2 w)) bins crisp, centres, 1 .. ~600 bins            width-* bins-1 bins-2 bins-3..40 bins-41+
+ 16  wave-vector lists                 -> random with mirrored / permuted partners, one axis, one shell,    qlist-random qlist-single qlist-axis qlist-shell
+                                          the documented default set; 1 .. 260 vectors (1030 thorough);    qlist-default qrep-int64 qrep-int32 qrep-int8
+                                          int64 / int32 / int8 / float64 / float32 arrays                   qrep-float64 qrep-float32
+Weak before this round, class added now: sizes (N <= 25, <= 28 wave vectors: gr_sized / sq_sized / the two sweeps / the
+large thorough facets), S(q) of one particle, one selected particle, wave-vector representation (only int64 before;
+utils.wavevector returns int32) and list shapes, documented defaults of ppp / rdelta (the call of the documentation),
+value-equal representations of mask / width / cell / coordinates, float32- and int32-valued scalars, axis-permuted cells,
+whole batches inside the Cartesian half box, frames kept alive and post-processed in place by the caller (retained).
 """
 from __future__ import annotations
 
@@ -28,12 +63,14 @@ from hypothesis import strategies as st
 from hypothesis.extra import numpy as hnp
 
 from ..gen import config_st, describe_config, fl, frac_st, nice_float, snapshot_from
-from ..harness import Facet, Violation
+from ..harness import Facet, Violation, guarded_check
 from ..ref import fourier13 as f13
 from ..ref import geom
 from ..ref import paircorr as pc
+from ..ref import sqref
 from ..util import arr, close, col, columns, require
-from .c03 import dyadic_case_st
+from .c03 import (SIZES_QUICK, SIZES_THOROUGH, boundary_sizes, dyadic_case_st, halfbox_case_st, permute_axes,
+                  random_frames, random_labels, rep_case_st, represent, size_tag)
 
 from PyMatterSim.reader.reader_utils import Snapshots
 from PyMatterSim.static.gr import conditional_gr
@@ -41,16 +78,21 @@ from PyMatterSim.static.gr import gr as GR
 from PyMatterSim.static.sq import conditional_sq
 from PyMatterSim.static.sq import sq as SQ
 
-RULE = ("single generated configurations (d {2,3}, N 6..25 for g(r) / 2..25 for S(q), gas / lattice / cluster, any origin, particles outside the "
-        "box; ortho or triclinic cell and every periodicity mask for g(r), orthogonal incl. cubic cell for S(q)) x "
-        "condition kinds {bool selection incl. one species / all, float, int, complex128, real and complex vectors of "
-        "1..5 components, symmetric and general real tensors} x bin widths giving 3..30 bins x integer wave-vector "
-        "lists (1..14 vectors, components in [-6,6], with sign-flipped and permuted partners); classes of their own: the "
-        "everyday input (cubic box, 16..25 particles inside, fully periodic, widths 0.02..0.2), minimal sizes (N = 2..3, "
-        "one or two bins), dyadic grids (pairs on bin edges), and a second call on the SAME snapshot / condition arrays "
-        "after writing new positions, tilt factors and field values into them.  non-trivial: g(r): the "
-        "weighted column has non-zero entries in at least two bins and the weights are not all equal; S(q): at least "
-        "two wave vectors with non-zero S and at least one |q| class with two or more members")
+RULE = ("single generated configurations (d {2,3}, N 6..25 for g(r) / 1..25 for S(q), gas / lattice / cluster / integer and "
+        "dyadic grids, any origin, particles outside the box; ortho, triclinic or axis-permuted triclinic cell and every "
+        "periodicity mask for g(r), orthogonal incl. cubic cell for S(q)) x condition kinds {bool selection incl. one "
+        "species / all / one particle, float, int64, int32, integer-valued float32, complex128, real and complex vectors "
+        "of 1..5 components, symmetric and general real tensors} x bin widths giving 1..~600 bins x integer wave-vector "
+        "lists (1..28 vectors, components in [-6,6], with sign-flipped and permuted partners; one vector, one axis, one "
+        "shell, the documented default set) as int64 / int32 / int8 / float64 / float32 arrays; classes of their own: the "
+        "everyday input (cubic box, 16..25 particles inside, fully periodic, widths 0.01..0.2, documented defaults of ppp "
+        "and rdelta), minimal sizes (N = 2..3, one or two bins), dyadic grids (pairs on bin edges), whole batches inside "
+        "the Cartesian half box of a strongly tilted cell, integer geometry as int64 arrays, mask as list / tuple / bool "
+        "/ float / int32, N and number of wave vectors at block boundaries 31..257 (thorough ..1025), a second call on "
+        "the SAME snapshot / condition arrays after writing new positions, tilt factors and field values into them, and "
+        "frames kept alive over interleaved evaluations.  non-trivial: g(r): the weighted column has non-zero entries in "
+        "at least two bins and the weights are not all equal; S(q): at least two wave vectors with non-zero S and at "
+        "least one |q| class with two or more members")
 ASSUMPTIONS = [
     "minimum image = fractional rounding (contract of C02); half-cell ties may take either image",
     "pairs within 1e-9 x coordinate scale of a bin edge may be counted on either side: the weighted column must lie "
@@ -61,7 +103,12 @@ ASSUMPTIONS = [
     "of the class means is skipped when a reference |q| lies within 1e-13 (relative) of a rounding boundary",
     "reductions against gr / sq are compared only in bins (|q| classes) the reference marks unambiguous; sq rounds to 6 "
     "decimals, hence 5e-7 + 5e-9 there",
-    "gA_norm is compared only when the variance of A exceeds 1e-6 <A^2>",
+    "gA_norm is compared only when the variance of A exceeds 1e-6 <A^2> (1e-2 <A^2> for float32 input, whose <A>^2 and "
+    "<A^2> are accumulated in float32: tolerance 2e-6 relative there)",
+    "integer-valued float32 and int32 scalars give exactly the float64 result for gA and Sq (every product and partial "
+    "sum is exact); general float32 fields are not generated (products round at 6e-8)",
+    "a frame handed out stays what it was when later calls run; a caller modifying a frame it received in place (the "
+    "documentation does `gA /= gr`) does not change what later calls return",
 ]
 MANIFEST = {
     "text": ("Differential test of static.gr.conditional_gr and static.sq.conditional_sq against independent brute-force "
@@ -69,13 +116,17 @@ MANIFEST = {
              "tensor): exact column sets, bin count and centres, total and weighted columns inside the reference "
              "interval, gA_norm, per-vector q / Sq / FFT and per-|q| means; plus the reductions species selection -> "
              "gr{aa}, Sq{aa}; all / A = 1 -> totals; vector = sum of components; symmetric tensor = flattened vector; a "
-             "second call with the same array objects mutated in place must describe the contents at call time."),
-    "note": ("Trusted base: pbt/ref/geom.py, pbt/ref/paircorr.py, pbt/ref/fourier13.py (numpy only).  Histogram edges "
-             "and half-cell ties are handled by an interval oracle.  Inputs are small (N <= 25, <= 31 bins, <= 28 wave "
-             "vectors).  complex64 scalars, complex tensors and vectors whose length differs from ndim in "
+             "second call with the same array objects mutated in place must describe the contents at call time; particle "
+             "numbers and wave-vector counts at block boundaries (random facets + exhaustive sweeps); value-equal "
+             "argument representations and documented defaults; frames kept alive over interleaved calls."),
+    "note": ("Trusted base: pbt/ref/geom.py, pbt/ref/paircorr.py, pbt/ref/fourier13.py, pbt/ref/sqref.py (default wave-"
+             "vector set only; numpy only).  Histogram edges and half-cell ties are handled by an interval oracle.  Quick "
+             "tier: N <= 260, <= 260 wave vectors; thorough: <= 1030 each.  complex64 scalars, complex tensors, general "
+             "float32 fields, list-typed conditions / wave vectors and vectors whose length differs from ndim in "
              "conditional_sq are outside the generated domain."),
     "technique": ("property-based testing (Hypothesis): reference-model differential with interval oracle + metamorphic "
-                  "reductions against the library's own partial functions"),
+                  "reductions against the library's own partial functions, call histories with retained results, two "
+                  "exhaustive size sweeps"),
 }
 
 EPS = 2.3e-16
@@ -103,9 +154,10 @@ def plan_st(draw, kinds, sq=False):
     kind = draw(st.sampled_from(list(kinds)))
     plan = {"kind": kind}
     if kind == "bool":
-        plan["sub"] = draw(st.sampled_from(["species", "species", "random", "all"]))
+        plan["sub"] = draw(st.sampled_from(["species", "species", "species", "random", "random", "all", "single"]))
     elif kind == "float":
-        plan["sub"] = draw(st.sampled_from(["generic", "generic", "generic", "one", "int", "positive", "offset"]))
+        plan["sub"] = draw(st.sampled_from(["generic", "generic", "generic", "one", "int", "int32", "f32int", "positive",
+                                            "offset"]))
     elif kind == "complex":
         plan["sub"] = draw(st.sampled_from(["generic", "generic", "phase"]))
     elif kind == "vector":
@@ -129,6 +181,10 @@ def condition_st(draw, plan, N, types, K, d):
             return {"kind": "bool", "sub": "species", "A": A, "ctype": None, "species": a}
         if sub == "all":
             return {"kind": "bool", "sub": "all", "A": np.ones(N, dtype=bool), "ctype": None}
+        if sub == "single":     # exactly one particle selected: N_A = 1, no pair, S = 1 for every wave vector
+            A = np.zeros(N, dtype=bool)
+            A[draw(st.sampled_from([0, N - 1, draw(st.integers(0, N - 1))]))] = True
+            return {"kind": "bool", "sub": "single", "A": A, "ctype": None}
         A = np.array(draw(st.lists(st.booleans(), min_size=N, max_size=N)), dtype=bool)
         if not A.any():
             A[draw(st.integers(0, N - 1))] = True
@@ -139,6 +195,10 @@ def condition_st(draw, plan, N, types, K, d):
             A = np.ones(N, dtype=np.float64)
         elif sub == "int":
             A = draw(hnp.arrays(np.int64, (N,), elements=st.integers(-5, 5)))
+        elif sub == "int32":    # the same small integers as int32 (a label- or count-like quantity)
+            A = draw(hnp.arrays(np.int32, (N,), elements=st.integers(-5, 5)))
+        elif sub == "f32int":   # small integers stored as float32: every product and partial sum is exact in float32
+            A = draw(hnp.arrays(np.int64, (N,), elements=st.integers(-5, 5))).astype(np.float32)
         elif sub == "positive":
             A = np.abs(draw(_real((N,)))) + 0.25
         elif sub == "offset":
@@ -175,6 +235,65 @@ def condition_st(draw, plan, N, types, K, d):
     raise AssertionError(kind)
 
 
+def condition_from_rng(rng, plan, N, types, K, d):
+    """The same condition kinds for the large configurations (values from a numpy generator seeded by Hypothesis)."""
+    def real(shape):
+        return np.where(rng.random(shape) < 0.5, rng.integers(-40, 41, shape) / 4.0, rng.uniform(-10.0, 10.0, shape))
+    kind = plan["kind"]
+    if kind == "bool":
+        sub = plan["sub"]
+        if sub == "species":
+            a = int(rng.integers(1, K + 1))
+            return {"kind": "bool", "sub": "species", "A": np.asarray(types) == a, "ctype": None, "species": a}
+        if sub == "all":
+            return {"kind": "bool", "sub": "all", "A": np.ones(N, dtype=bool), "ctype": None}
+        if sub == "single":
+            A = np.zeros(N, dtype=bool)
+            A[[0, N - 1, int(rng.integers(0, N))][int(rng.integers(0, 3))]] = True
+            return {"kind": "bool", "sub": "single", "A": A, "ctype": None}
+        A = rng.random(N) < rng.choice([0.2, 0.5, 0.9])
+        A[N - 1] = True if rng.integers(0, 2) else A[N - 1]
+        if not A.any():
+            A[int(rng.integers(0, N))] = True
+        return {"kind": "bool", "sub": "random", "A": A, "ctype": None}
+    if kind == "float":
+        sub = plan["sub"]
+        if sub == "one":
+            A = np.ones(N, dtype=np.float64)
+        elif sub == "int":
+            A = rng.integers(-5, 6, N).astype(np.int64)
+        elif sub == "int32":
+            A = rng.integers(-5, 6, N).astype(np.int32)
+        elif sub == "f32int":
+            A = rng.integers(-5, 6, N).astype(np.float32)
+        elif sub == "positive":
+            A = np.abs(real(N)) + 0.25
+        elif sub == "offset":
+            m = float(rng.choice([1.2, 5.0, -3.0, 100.0]))
+            amp = float(rng.choice([2e-3, 3e-3, 5e-3, 2e-2]))
+            A = m * (1.0 + amp * rng.integers(-64, 65, N) / 64.0)
+            if np.ptp(A) == 0:
+                A[0] = m * (1.0 + amp)
+        else:
+            A = real(N)
+        return {"kind": "float", "sub": sub, "A": A, "ctype": None}
+    if kind == "complex":
+        if plan["sub"] == "phase":
+            A = np.exp(1j * rng.uniform(-3.2, 3.2, N)).astype(np.complex128)
+        else:
+            A = (real(N) + 1j * real(N)).astype(np.complex128)
+        return {"kind": "complex", "sub": plan["sub"], "A": A, "ctype": None}
+    if kind == "vector":
+        m = min(plan["m"] or d, 3)
+        A = (real((N, m)) + 1j * real((N, m))).astype(np.complex128) if plan["cplx"] else real((N, m))
+        return {"kind": "vector", "sub": ("complex" if plan["cplx"] else "real") + f"-m{m}", "A": A, "ctype": "vector"}
+    m = plan["m"] or d
+    A = real((N, m, m))
+    if plan["sym"]:
+        A = 0.5 * (A + np.transpose(A, (0, 2, 1)))
+    return {"kind": "tensor", "sub": ("sym" if plan["sym"] else "general") + f"-m{m}", "A": A, "ctype": "tensor"}
+
+
 def _second_cell(draw, cell):
     """Same edge lengths, different tilt factors (triclinic); unchanged for orthogonal cells."""
     if cell["kind"] != "tri":
@@ -194,15 +313,29 @@ def _second_cell(draw, cell):
 
 
 @st.composite
-def gr_case_st(draw, kinds):
+def gr_case_st(draw, kinds, klasses=None, force_second=False):
     plan = draw(plan_st(kinds))
-    klass = draw(st.sampled_from(["generic"] * 5 + ["dyadic", "dyadic", "ordinary", "ordinary", "minimal"]))
+    klass = draw(st.sampled_from(list(klasses) if klasses else
+                                 ["generic"] * 5 + ["dyadic", "dyadic", "ordinary", "ordinary", "minimal", "halfbox",
+                                                    "permuted", "intgrid"]))
     mode = draw(st.sampled_from(["frac", "frac", "nice", "exact"]))
-    twice = draw(st.sampled_from([False, False, True]))
+    twice = True if force_second else draw(st.sampled_from([False, False, True]))
     if klass == "dyadic":
         case = draw(dyadic_case_st())          # exact grid: pairs on bin edges and at the half cell
         case["pos"] = case["pos"][:1]
         case["timesteps"] = case["timesteps"][:1]
+    elif klass == "halfbox":
+        # strongly tilted cell, every particle inside a Cartesian region below half the edge lengths: all batches of
+        # displacements are short in every Cartesian component, many still need another image (see c03.halfbox_case_st)
+        case = draw(halfbox_case_st())
+        case["pos"] = case["pos"][:1]
+        case["timesteps"] = case["timesteps"][:1]
+    elif klass == "intgrid":
+        # integer-valued geometry handed over as int64 cell / bounds / coordinates (see c03.rep_case_st)
+        case = draw(rep_case_st())
+        case["pos"] = case["pos"][:1]
+        case["timesteps"] = case["timesteps"][:1]
+        case["rep"] = {k: v for k, v in case["rep"].items() if k in ("cell", "pos", "ppp", "rdelta")}
     elif klass == "ordinary":
         # the everyday input: cubic box at the origin, particles inside, fully periodic, typical bin widths
         d = draw(st.sampled_from([2, 3]))
@@ -213,9 +346,16 @@ def gr_case_st(draw, kinds):
         H = np.diag([L0] * d)
         case["cell"] = dict(case["cell"], H=H)
         case["pos"] = [f @ H]
-        case["rdelta"] = float(draw(st.sampled_from([0.02, 0.05, 0.1, 0.2])))
+        case["rdelta"] = float(draw(st.sampled_from([0.01, 0.02, 0.05, 0.1, 0.2])))
         case["wmode"] = "typical"
         case["kind"] = "ordinary-" + case["kind"]
+        # the call of the documentation: conditional_gr(snapshot, condition=...) with the documented defaults
+        rep = {}
+        if d == 3 and draw(st.booleans()):
+            rep["ppp"] = "default"
+        if case["rdelta"] == 0.01 and draw(st.sampled_from([True, True, False])):
+            rep["rdelta"] = "default"
+        case["rep"] = rep
     elif klass == "minimal":
         # N = 2 or 3, one or two bins
         N = draw(st.sampled_from([2, 2, 3]))
@@ -230,7 +370,14 @@ def gr_case_st(draw, kinds):
             case["pos"][0][1] = case["pos"][0][0] + draw(fl(0.05, 0.9)) * case["rdelta"] * nb * e
         case["kind"] = "minimal-" + case["kind"]
     else:
-        case = draw(config_st(nmin=6, nmax=25, kmax=4, frames=(1, 1), lmin=2.0, lmax=12.0))
+        case = draw(config_st(nmin=6, nmax=25, kmax=4, frames=(1, 1), lmin=2.0, lmax=12.0,
+                              cell_kind="tri" if klass == "permuted" else "any"))
+        if klass == "permuted":
+            # the same triclinic system with relabelled axes: the cell matrix is no longer lower triangular
+            dd = case["d"]
+            perm = draw(st.sampled_from([p_ for p_ in __import__("itertools").permutations(range(dd))
+                                         if list(p_) != list(range(dd))]))
+            permute_axes(case, perm)
         lmin = float(np.diag(case["cell"]["H"]).min())
         if mode == "frac":
             rdelta = lmin / (2.0 * (draw(st.integers(3, 30)) + draw(fl(0.02, 0.98))))
@@ -243,7 +390,12 @@ def gr_case_st(draw, kinds):
     N = len(case["types"])
     case["klass"] = klass
     case["cond"] = draw(condition_st(plan, N, case["types"], case["K"], case["d"]))
-    if twice:
+    if klass in ("generic", "dyadic", "minimal", "halfbox", "permuted"):
+        # value-equal representations of the mask / width, labels of the comparison partner as the GSD reader gives them
+        case["rep"] = {"ppp": draw(st.sampled_from(["int64", "int64", "int32", "float64", "bool", "list", "tuple"])),
+                       "rdelta": draw(st.sampled_from(["float", "float", "np.float64"])),
+                       "types": draw(st.sampled_from(["int64", "int64", "int32", "uint32", "uint8"]))}
+    if twice and klass != "intgrid":
         # second contents for the SAME array objects (mutated in place between two calls): new positions, new tilt
         # factors with the same edge lengths, new field values
         cell2 = _second_cell(draw, case["cell"])
@@ -253,10 +405,167 @@ def gr_case_st(draw, kinds):
     return case
 
 
+ALLKINDS = ("bool", "float", "complex", "vector", "tensor")
+
+
+def gr_sized_case(plan, N, d, K, cell, ppp, kind, how, seed, rdelta):
+    rng = np.random.default_rng(seed)
+    pos, outside = random_frames(rng, N, cell, 1, kind, ppp)
+    types = random_labels(rng, N, K, how)
+    return {"d": d, "cell": cell, "pos": pos, "types": types, "ppp": np.asarray(ppp, dtype=int), "K": K, "kind": kind,
+            "timesteps": [0], "outside": outside, "rdelta": float(rdelta), "wmode": "frac", "klass": "sized",
+            "labels": how, "seed": int(seed), "cond": condition_from_rng(rng, plan, N, types, K, d)}
+
+
 @st.composite
-def sq_case_st(draw, kinds):
+def gr_sized_case_st(draw, sizes, generic, kinds=ALLKINDS):
+    """conditional_gr on larger configurations whose particle number sits at a block boundary (4 of 5 cases) or anywhere
+    in `generic`; positions / labels / field values from a numpy generator seeded by Hypothesis; 2..8 bins."""
+    plan = draw(plan_st(kinds))
+    N = draw(st.sampled_from(list(sizes))) if draw(st.integers(0, 4)) else draw(st.integers(*generic))
+    d = draw(st.sampled_from([2, 3]))
+    K = draw(st.integers(1, 3))
+    from ..gen import cell_st, ppp_st
+    cell = draw(cell_st(d, "any", lmin=2.0, lmax=12.0))
+    ppp = draw(ppp_st(d))
+    kind = draw(st.sampled_from(["gas", "gas", "cluster"]))
+    how = draw(st.sampled_from(["random", "sorted", "last-single"]))
+    seed = draw(st.integers(0, 2 ** 32 - 1))
+    lmin = float(np.diag(cell["H"]).min())
+    rdelta = lmin / (2.0 * (draw(st.integers(2, 8)) + draw(fl(0.02, 0.98))))
+    return gr_sized_case(plan, N, d, K, cell, ppp, kind, how, seed, rdelta)
+
+
+_SWEEP_PLANS = [{"kind": "bool", "sub": "species"}, {"kind": "float", "sub": "generic"}, {"kind": "complex", "sub": "generic"},
+                {"kind": "vector", "m": None, "cplx": False}, {"kind": "tensor", "m": None, "sym": False},
+                {"kind": "bool", "sub": "random"}, {"kind": "vector", "m": 2, "cplx": True}]
+
+
+def gr_size_sweep(tier):
+    """Finite enumeration: conditional_gr at EVERY boundary particle number of the tier once; condition kind, dimension,
+    cell kind and mask cycle with the index."""
+    sizes = SIZES_QUICK if tier == "quick" else SIZES_QUICK + SIZES_THOROUGH
+    for idx, N in enumerate(sizes):
+        plan = _SWEEP_PLANS[idx % len(_SWEEP_PLANS)]
+        d = 2 + (idx // 2) % 2
+        tri = (idx // 3) % 2 == 1
+        L = np.array([6.0, 8.5, 7.25][:d]) + 0.5 * (idx % 5)
+        H = np.diag(L)
+        if tri:
+            H[1, 0] = (0.3 if idx % 2 else -0.4) * L[0]
+            if d == 3:
+                H[2, 1] = 0.2 * L[1]
+        cell = {"d": d, "kind": "tri" if tri else "ortho", "H": H, "lo": np.zeros(d), "origin": "zero"}
+        ppp = np.ones(d, dtype=int)
+        if idx % 4 == 3:
+            ppp[idx % d] = 0
+        case = gr_sized_case(plan, N, d, 1 + idx % 3, cell, ppp, "gas", ["random", "sorted", "last-single"][idx % 3],
+                             2000 + N, float(L.min()) / (2.0 * (3 + idx % 4) + 0.6))
+        try:
+            info = guarded_check(check_gr, case)
+        except Violation as v:
+            v.case = case
+            raise
+        yield case, info
+
+
+NQ_COUNTS = boundary_sizes(31, 260)
+NQ_ALL = set(boundary_sizes(31, 1030))
+
+
+def wavevector_list(rng, d, nq, style):
+    """nq integer wave vectors.  style: 'random' (components in [-8, 8]) | 'axis' (all along one axis) | 'shell' (sign
+    flips and permutations of one vector: a single |n| class) | 'default' (the head of the complete set of vectors with
+    integer norm that utils.wavevector documents)."""
+    if style == "axis":
+        v = np.zeros((nq, d), dtype=np.int64)
+        v[:, int(rng.integers(0, d))] = rng.permutation(np.arange(-(nq // 2), nq - nq // 2))
+        return v
+    if style == "shell":
+        base = rng.integers(1, 7, d)
+        rows = np.array([rng.permutation(base) * rng.choice([-1, 1], d) for _ in range(nq)], dtype=np.int64)
+        return rows
+    if style == "default":
+        numofq = 6
+        while True:
+            allv = np.array(sqref.default_vectors_large(d, numofq), dtype=np.int64).reshape(-1, d)
+            if len(allv) >= nq:
+                break
+            numofq = 2 * (int(numofq * 0.75) + 1)
+        return allv[np.sort(rng.choice(len(allv), nq, replace=False))]
+    return rng.integers(-8, 9, (nq, d)).astype(np.int64)
+
+
+def sq_sized_case(plan, axis, N, nq, d, K, L, lo, how, style, qrep, seed):
+    rng = np.random.default_rng(seed)
+    cell = {"d": d, "kind": "ortho", "H": np.diag(L), "lo": lo, "origin": "zero" if not lo.any() else "arbitrary"}
+    ppp = np.ones(d, dtype=int)
+    pos, outside = random_frames(rng, N, cell, 1, "gas", ppp)
+    types = random_labels(rng, N, K, how)
+    shape = "cubic" if len(set(L.tolist())) == 1 else "unequal"
+    return {"d": d, "cell": cell, "pos": pos, "types": types, "ppp": ppp, "K": K, "kind": "gas", "timesteps": [0],
+            "outside": outside, "shape": shape, "nvec": wavevector_list(rng, d, nq, style), "qstyle": style, "qrep": qrep,
+            "axis": axis, "seed": int(seed), "cond": condition_from_rng(rng, plan, N, types, K, d)}
+
+
+QREPS = ["int64", "int64", "int32", "int32", "int8", "float64", "float32"]
+
+
+@st.composite
+def sq_sized_case_st(draw, nsizes, ngeneric, qsizes, qgeneric, kinds=("bool", "float", "complex", "vector")):
+    """conditional_sq with the number of wave vectors and / or the number of particles at a block boundary."""
     plan = draw(plan_st(kinds, sq=True))
-    case = draw(config_st(cell_kind="ortho", nmin=2, nmax=25, kmax=4, frames=(1, 1), allow_open=False))
+    axis = draw(st.sampled_from(["nq", "N", "both"]))
+    if axis in ("N", "both"):
+        N = draw(st.sampled_from(list(nsizes))) if draw(st.integers(0, 4)) else draw(st.integers(*ngeneric))
+    else:
+        N = draw(st.integers(2, 25))
+    if axis in ("nq", "both"):
+        nq = draw(st.sampled_from(list(qsizes))) if draw(st.integers(0, 4)) else draw(st.integers(*qgeneric))
+    else:
+        nq = draw(st.integers(1, 14))
+    d = draw(st.sampled_from([2, 3]))
+    K = draw(st.integers(1, min(3, N)))
+    cubic = draw(st.booleans())
+    L0 = draw(nice_float(2.0, 20.0))
+    L = np.array([L0] * d) if cubic else np.array([draw(nice_float(2.0, 20.0)) for _ in range(d)])
+    lo = np.zeros(d) if draw(st.booleans()) else np.array([draw(nice_float(-20.0, 20.0)) for _ in range(d)])
+    how = draw(st.sampled_from(["random", "sorted", "last-single"]))
+    style = draw(st.sampled_from(["random", "random", "axis", "shell", "default"]))
+    return sq_sized_case(plan, axis, N, nq, d, K, L, lo, how, style, draw(st.sampled_from(QREPS)),
+                         draw(st.integers(0, 2 ** 32 - 1)))
+
+
+def sq_size_sweep(tier):
+    """Finite enumeration: conditional_sq at EVERY boundary number of wave vectors (N = 20) and EVERY boundary number of
+    particles (12 wave vectors) of the tier once; condition kind, dimension, box shape cycle with the index."""
+    sizes = SIZES_QUICK if tier == "quick" else SIZES_QUICK + SIZES_THOROUGH
+    plans = [{"kind": "bool", "sub": "species"}, {"kind": "float", "sub": "generic"}, {"kind": "complex", "sub": "generic"},
+             {"kind": "vector", "m": None, "cplx": False}, {"kind": "bool", "sub": "random"},
+             {"kind": "vector", "m": None, "cplx": True}]
+    idx = 0
+    for axis in ("nq", "N"):
+        for n in sizes:
+            plan = plans[idx % len(plans)]
+            d = 2 + idx % 2
+            L = np.array([6.0, 8.5, 7.25][:d]) if idx % 3 else np.array([7.5] * d)
+            N, nq = (20, n) if axis == "nq" else (n, 12)
+            case = sq_sized_case(plan, axis, N, nq, d, 1 + idx % 3, L, np.zeros(d), ["random", "sorted", "last-single"][idx % 3],
+                                 ["random", "default", "shell", "axis"][idx % 4], QREPS[idx % len(QREPS)], 3000 + idx)
+            idx += 1
+            try:
+                info = guarded_check(check_sq, case)
+            except Violation as v:
+                v.case = case
+                raise
+            yield case, info
+
+
+@st.composite
+def sq_case_st(draw, kinds, force_second=False):
+    plan = draw(plan_st(kinds, sq=True))
+    case = draw(config_st(cell_kind="ortho", nmin=draw(st.sampled_from([1, 2, 2, 2])), nmax=25, kmax=4, frames=(1, 1),
+                          allow_open=False))
     d = case["d"]
     cell = case["cell"]
     shape = draw(st.sampled_from(["unequal", "cubic", "two-equal"] if d == 3 else ["unequal", "cubic"]))
@@ -284,9 +593,18 @@ def sq_case_st(draw, kinds):
     nvec = np.vstack(rows)
     perm = draw(st.permutations(range(len(nvec))))
     case["nvec"] = nvec[list(perm)]
+    style = draw(st.sampled_from(["random"] * 5 + ["single", "axis", "shell", "default"]))
+    if style != "random":
+        # whole lists in one region: a single vector, all along one axis, one |n| shell, the documented default set
+        rs = np.random.default_rng(draw(st.integers(0, 2 ** 32 - 1)))
+        case["nvec"] = wavevector_list(rs, d, 1 if style == "single" else draw(st.integers(2, 24)),
+                                       "random" if style == "single" else style)
+    case["qstyle"] = style
+    case["qrep"] = draw(st.sampled_from(QREPS))
+    case["rep"] = {"types": draw(st.sampled_from(["int64", "int64", "int32", "uint32", "uint8"]))}
     N = len(case["types"])
     case["cond"] = draw(condition_st(plan, N, case["types"], case["K"], d))
-    if draw(st.sampled_from([False, False, True])):
+    if force_second or draw(st.sampled_from([False, False, True])):
         f2 = draw(frac_st(N, d))
         A2 = draw(condition_st(plan, N, case["types"], case["K"], d))["A"]
         case["second"] = {"pos": case["cell"]["lo"] + f2 @ case["cell"]["H"], "A": A2}
@@ -317,10 +635,34 @@ def _weight_kind(cond):
     return {"bool": "bool", "float": "scalar", "complex": "scalar", "vector": "vector", "tensor": "tensor"}[cond["kind"]]
 
 
+def make_snap(case, pos=None, timestep=None):
+    """The library snapshot of the case, with the value-equal representations the case asks for."""
+    snap = snapshot_from(case["cell"], case["pos"][0] if pos is None else pos, case["types"],
+                         case["timesteps"][0] if timestep is None else timestep)
+    rep = case.get("rep")
+    return represent(snap, rep) if rep else snap
+
+
+def cgr_kwargs(case):
+    """ppp / rdelta as the case passes them (another representation, or omitted: documented defaults)."""
+    from .c03 import mask_arg, width_arg
+    rep = case.get("rep") or {}
+    kw = {}
+    if rep.get("ppp") == "default":
+        if case["d"] != 3 or not np.all(case["ppp"]):
+            raise ValueError("default mask only for fully periodic 3D cases")
+    else:
+        kw["ppp"] = mask_arg(case)
+    if rep.get("rdelta") == "default":
+        if case["rdelta"] != 0.01:
+            raise ValueError("default width is 0.01")
+    else:
+        kw["rdelta"] = width_arg(case)
+    return kw
+
+
 def call_cgr(case, A, ctype):
-    snap = snapshot_from(case["cell"], case["pos"][0], case["types"], case["timesteps"][0])
-    return conditional_gr(snap, condition=np.array(A, copy=True), conditiontype=ctype,
-                          ppp=np.array(case["ppp"], dtype=int), rdelta=case["rdelta"])
+    return conditional_gr(make_snap(case), condition=np.array(A, copy=True), conditiontype=ctype, **cgr_kwargs(case))
 
 
 def frame_values(tag, df, names, nrow=None):
@@ -343,6 +685,9 @@ def verify_cgr(case, pos, H, A, df, tag):
     width = case["rdelta"]
     lmin = float(np.diag(H).min())
     real_scalar = cond["kind"] == "float"
+    single = A.dtype == np.float32          # small integers stored as float32: gA exact, <A>, <A^2> rounded at 2^-24
+    if A.dtype.kind in "iuf" and A.dtype != np.float64:
+        A = A.astype(np.float64)            # the oracle works with the same VALUES in double precision
     names = ["r", "gr", "gA"] + (["gA_norm"] if real_scalar else [])
     require(isinstance(df, pd.DataFrame), f"{tag}: returned {type(df).__name__}")
     allowed = pc.nbins_allowed(lmin, width)
@@ -377,10 +722,13 @@ def verify_cgr(case, pos, H, A, df, tag):
         m2 = float(np.mean(Af)) ** 2
         s2 = float(np.mean(Af * Af))
         var = s2 - m2
-        if var > 1e-6 * max(s2, 1e-300):
+        # float32 input: the library's <A>^2 and <A^2> carry relative errors of a few 2^-24 (float32 accumulation)
+        epsm = 2e-6 if single else 1e-12
+        if var > (1e-2 if single else 1e-6) * max(s2, 1e-300):
             lo_n = (facA * loA - m2) / var
             hi_n = (facA * hiA - m2) / var
-            atol_n = (atolA + 1e-12 * (np.abs(facA * hiA) + m2 + s2)) / var + 1e-9 * (np.abs(lo_n) + np.abs(hi_n))
+            atol_n = (atolA + epsm * (np.abs(facA * hiA) + m2 + s2)) / var \
+                + (1e-9 + epsm * (m2 + s2) / var) * (np.abs(lo_n) + np.abs(hi_n))
             within(f"{tag}[gA_norm] = (gA - <A>^2)/(<A^2> - <A>^2)", np.real(v["gA_norm"]), lo_n, hi_n, atol_n)
             # and as a pure function of the returned gA column
             close(f"{tag}[gA_norm] vs returned gA", np.real(v["gA_norm"]).astype(float), (gA - m2) / var,
@@ -399,10 +747,10 @@ def check_gr(case):
     width = case["rdelta"]
     tag = f"conditional_gr[{cond['kind']}/{cond['sub']}]"
 
-    snap = snapshot_from(case["cell"], pos, case["types"], case["timesteps"][0])
+    snap = make_snap(case)
     Aobj = np.array(A, copy=True)
-    pppobj = np.array(case["ppp"], dtype=int)
-    df = conditional_gr(snap, condition=Aobj, conditiontype=cond["ctype"], ppp=pppobj, rdelta=width)
+    kwobj = cgr_kwargs(case)
+    df = conditional_gr(snap, condition=Aobj, conditiontype=cond["ctype"], **kwobj)
     R = verify_cgr(case, pos, H, A, df, tag)
     v, nbin, allowed, gA, clean, atolA, w, definite, nties = (R[k] for k in
                                                               ("v", "nbin", "allowed", "gA", "clean", "atolA", "w", "definite", "nties"))
@@ -414,7 +762,7 @@ def check_gr(case):
         snap.positions[...] = sec["pos"]
         snap.hmatrix[...] = sec["H"]
         Aobj[...] = sec["A"]
-        df2 = conditional_gr(snap, condition=Aobj, conditiontype=cond["ctype"], ppp=pppobj, rdelta=width)
+        df2 = conditional_gr(snap, condition=Aobj, conditiontype=cond["ctype"], **kwobj)
         verify_cgr(case, sec["pos"], sec["H"], sec["A"], df2, tag + " (second call, same arrays mutated in place)")
 
     # ---- reductions against the library itself
@@ -427,7 +775,7 @@ def check_gr(case):
               atol=1e-12 * max(1.0, float(np.abs(gtot).max())))
         red.append("total")
     if cond["kind"] == "bool":
-        snaps = Snapshots(nsnapshots=1, snapshots=[snapshot_from(case["cell"], pos, case["types"], 0)])
+        snaps = Snapshots(nsnapshots=1, snapshots=[make_snap(case, timestep=0)])
         full = GR(snaps, ppp=np.array(case["ppp"], dtype=int), rdelta=width).getresults()
         require(isinstance(full, pd.DataFrame) and len(full) == nbin, f"{tag}: gr.getresults() has a different number of bins")
         gfull = col("gr", full, "gr").astype(float)
@@ -483,7 +831,17 @@ def check_gr(case):
         tags.append("nbin-ambiguous")
     tags.append("class-" + case.get("klass", "generic"))
     tags.append("bins-1" if nbin == 1 else ("bins-2" if nbin == 2 else ("bins-3..40" if nbin <= 41 else "bins-41+")))
-    tags.append("N2-3" if N <= 3 else "N4+")
+    tags.append("N2-3" if N <= 3 else ("N4-40" if N <= 40 else "N41+"))
+    if N > 40:
+        tags.append(size_tag(N))
+    for k_, v_ in (case.get("rep") or {}).items():
+        tags.append(f"rep-{k_}-{v_}")
+    if case.get("perm"):
+        tags.append("axes-permuted-cell-not-lower-triangular")
+    if case.get("labels"):
+        tags.append("labels-" + case["labels"])
+    if cond["kind"] == "bool" and int(np.sum(A)) == 1:
+        tags.append("one-particle-selected")
     tags.append("in-range-pairs" if R["in_range"] else "no-pair-in-range")
     if case.get("second"):
         tags.append("second-call-mutated-in-place")
@@ -496,10 +854,18 @@ def check_gr(case):
 # ----------------------------------------------------------------------------- conditional S(q)
 
 
+def qvector_arg(case):
+    """The integer wave vectors in the representation the case asks for (int64 | int32: what utils.wavevector returns |
+    int8 | float64: what np.loadtxt returns | float32), int64 when the values do not fit."""
+    nvec = np.asarray(case["nvec"], dtype=np.int64)
+    out = nvec.astype(case.get("qrep", "int64"))
+    return out if np.array_equal(out.astype(np.int64), nvec) else nvec.copy()
+
+
 def call_csq(case, A, snap=None):
     if snap is None:
-        snap = snapshot_from(case["cell"], case["pos"][0], case["types"], case["timesteps"][0])
-    out = conditional_sq(snap, qvector=np.array(case["nvec"], copy=True), condition=A)
+        snap = make_snap(case)
+    out = conditional_sq(snap, qvector=qvector_arg(case), condition=A)
     require(isinstance(out, tuple) and len(out) == 2, f"conditional_sq returned {type(out).__name__}, expected a pair of frames")
     return out
 
@@ -562,7 +928,7 @@ def check_sq(case):
     vec = cond["kind"] == "vector"
     R = R8
 
-    snap = snapshot_from(case["cell"], pos, case["types"], case["timesteps"][0])
+    snap = make_snap(case)
     Aobj = np.array(A, copy=True)
     per, ave = call_csq(case, Aobj, snap)
     v, q, qabs, rho, S, NA, err_rho, err_S, Sgot = verify_sq_rows(case, pos, A, per, tag)
@@ -605,7 +971,7 @@ def check_sq(case):
         all(len(np.unique(key8[key6 == u])) == 1 for u in np.unique(key6))
     if cond["kind"] == "bool" or one:
         if part_ok:
-            snaps = Snapshots(nsnapshots=1, snapshots=[snapshot_from(*snap_args)])
+            snaps = Snapshots(nsnapshots=1, snapshots=[make_snap(case, timestep=0)])
             full = SQ(snaps, qvector=np.array(nvec, copy=True)).getresults()
             require(isinstance(full, pd.DataFrame) and len(full) == len(uq),
                     f"{tag}: sq.getresults() has {len(full) if hasattr(full, '__len__') else '?'} |q| classes, conditional_sq {len(uq)}")
@@ -655,8 +1021,88 @@ def check_sq(case):
         tags.append("outside-box")
     if case.get("second"):
         tags.append("second-call-mutated-in-place")
-    tags.append("N2-3" if len(pos) <= 3 else "N4+")
+    Np = len(pos)
+    tags.append("N1" if Np == 1 else ("N2-3" if Np <= 3 else ("N4-40" if Np <= 40 else "N41+")))
+    if Np > 40:
+        tags.append(size_tag(Np))
+    tags.append("nq-1" if nq == 1 else ("nq-2..30" if nq <= 30 else ("nq-boundary-%d" % nq if nq in NQ_ALL else "nq-31+")))
+    tags.append("qlist-" + case.get("qstyle", "random"))
+    tags.append("qrep-" + str(qvector_arg(case).dtype))
+    for k_, v_ in (case.get("rep") or {}).items():
+        tags.append(f"rep-{k_}-{v_}")
+    if len(uq) == 1 and nq > 1:
+        tags.append("all-vectors-in-one-q-class")
+    if cond["kind"] == "bool" and int(np.sum(A)) == 1:
+        tags.append("one-particle-selected")
     return {"nontrivial": bool(nontrivial), "tags": tags, "extra": {"reductions": len(red), "wavevectors": nq}}
+
+
+# ----------------------------------------------------------------------------- results kept alive
+
+
+@st.composite
+def retained_case_st(draw):
+    """One conditional_gr problem and one conditional_sq problem, each with two different contents under the SAME key
+    parameters (N, number of bins / wave-vector list, condition kind), evaluated in an interleaved order; every frame
+    handed out stays alive until the end."""
+    g = draw(gr_case_st(ALLKINDS, klasses=("generic", "generic", "dyadic", "halfbox"), force_second=True))
+    q = draw(sq_case_st(("bool", "float", "complex", "vector"), force_second=True))
+    order = draw(st.lists(st.sampled_from(["g1", "g2", "s1", "s2"]), min_size=4, max_size=7))
+    for k in ("g1", "g2", "s1", "s2"):
+        if k not in order:
+            order.append(k)
+    out = dict(g)
+    out.update({"g": g, "q": q, "order": order, "scribble": draw(st.booleans()), "kind": "retained"})
+    return out
+
+
+def _same(a, b):
+    a, b = np.asarray(a), np.asarray(b)
+    return a.shape == b.shape and bool(np.array_equal(a, b, equal_nan=True))
+
+
+def check_retained(case):
+    """Each frame is compared with the oracle when it is handed out and copied; at the end EVERY frame must still be
+    bit-for-bit what it was.  Then the caller post-processes the frames it owns in place (the documentation does
+    `grresults["gA"] /= grresults["gr"]`) and every problem is evaluated once more."""
+    g, q = case["g"], case["q"]
+
+    def evaluate(which, tag):
+        if which[0] == "g":
+            pos, H, A = (g["pos"][0], g["cell"]["H"], g["cond"]["A"]) if which == "g1" else \
+                (g["second"]["pos"], g["second"]["H"], g["second"]["A"])
+            snap = make_snap(dict(g, cell=dict(g["cell"], H=H)), pos=pos)
+            df = conditional_gr(snap, condition=np.array(A, copy=True), conditiontype=g["cond"]["ctype"], **cgr_kwargs(g))
+            verify_cgr(g, pos, H, A, df, tag)
+            return [df]
+        pos, A = (q["pos"][0], q["cond"]["A"]) if which == "s1" else (q["second"]["pos"], q["second"]["A"])
+        per, ave = call_csq(q, np.array(A, copy=True), make_snap(q, pos=pos))
+        verify_sq_rows(q, pos, A, per, tag)
+        require(isinstance(ave, pd.DataFrame), f"{tag}: averaged result is {type(ave).__name__}")
+        return [per, ave]
+
+    kept = []
+    for n, which in enumerate(case["order"]):
+        frames = evaluate(which, f"evaluation {n + 1} ({which})")
+        kept.append((n, which, frames, [f.copy(deep=True) for f in frames]))
+    for n, which, frames, copies in kept:
+        for f, c in zip(frames, copies):
+            require(list(f.columns) == list(c.columns) and len(f) == len(c),
+                    f"frame handed out by evaluation {n + 1} ({which}) changed its layout after later evaluations")
+            for name in c.columns:
+                require(_same(f[name].values, c[name].values),
+                        f"frame handed out by evaluation {n + 1} ({which}): column {name} changed after later evaluations")
+    tags = ["kind-" + g["cond"]["kind"], "sq-kind-" + q["cond"]["kind"], f"evaluations-{len(case['order'])}",
+            "same-key-contents-interleaved"]
+    if case["scribble"]:
+        for _, _, frames, _ in kept:
+            for f in frames:
+                for name in f.columns[1:]:
+                    f[name] /= 3.0
+        for which in ("g1", "g2", "s1", "s2"):
+            evaluate(which, f"{which} evaluated after the caller post-processed the earlier frames in place")
+        tags.append("caller-modifies-returned-frames")
+    return {"nontrivial": True, "tags": tags, "extra": {"frames_kept": sum(len(k[2]) for k in kept)}}
 
 
 # ----------------------------------------------------------------------------- facets
@@ -677,6 +1123,16 @@ def describe(case):
 NT_GR = "non-trivial: gA non-zero in >= 2 bins and weights not all equal (bool: not 'all')"
 NT_SQ = "non-trivial: >= 2 wave vectors with S > 1e-7 and some |q| class with >= 2 members"
 
+_gsweep = Facet("gr_size_sweep", check=gr_size_sweep, exhaustive=True, describe=lambda case: describe(case),
+                 rule="finite: conditional_gr at every boundary particle number of the tier once (quick 26 values 31..257, "
+                      "thorough + 35 values 266..1025), condition kind / dimension / cell / mask cycling")
+_gsweep.replay = lambda case: guarded_check(check_gr, case)  # noqa: E731
+_ssweep = Facet("sq_size_sweep", check=sq_size_sweep, exhaustive=True, describe=lambda case: describe(case),
+                 rule="finite: conditional_sq at every boundary number of wave vectors (N = 20) and every boundary number "
+                      "of particles (12 wave vectors) of the tier once, kind / dimension / box / list style / wave-vector "
+                      "dtype cycling")
+_ssweep.replay = lambda case: guarded_check(check_sq, case)  # noqa: E731
+
 FACETS = [
     Facet("gr_bool", gr_case_st(("bool",)), check_gr, quick=300, thorough=8000, describe=describe, shards_quick=3,
           rule="conditional_gr, boolean selections (one species / random / all); reductions to gr{aa} and the total. " + NT_GR),
@@ -692,4 +1148,24 @@ FACETS = [
           describe=describe, shards_quick=3,
           rule="conditional_sq, float / int / complex scalars and real / complex ndim-vectors; A = 1 -> total, vector = "
                "sum over components. " + NT_SQ),
+    _gsweep,
+    _ssweep,
+    Facet("gr_sized", gr_sized_case_st(SIZES_QUICK, (41, 260)), check_gr, quick=60, thorough=1200, describe=describe,
+          shards_quick=4,
+          rule="conditional_gr, all condition kinds, N at block boundaries (31..257, 4 of 5 cases) or anywhere in 41..260, "
+               "K 1..3, labels random / sorted / single last, ortho / tri, all masks, 2..8 bins. " + NT_GR),
+    Facet("sq_sized", sq_sized_case_st(SIZES_QUICK, (41, 260), NQ_COUNTS, (31, 260)), check_sq, quick=100, thorough=3000,
+          describe=describe, shards_quick=2,
+          rule="conditional_sq, number of wave vectors and / or number of particles at block boundaries (31..257) or "
+               "anywhere in 31..260; lists random / one axis / one shell / documented default set; wave vectors as int64 "
+               "/ int32 / int8 / float64 / float32 arrays. " + NT_SQ),
+    Facet("gr_sized_large", gr_sized_case_st(SIZES_THOROUGH, (261, 1030)), check_gr, quick=0, thorough=160,
+          describe=describe, rule="thorough tier only: conditional_gr with N around 500, 512, 1000, 1024 (266..1030). " + NT_GR),
+    Facet("sq_sized_large", sq_sized_case_st(SIZES_THOROUGH, (261, 1030), SIZES_THOROUGH, (261, 1030)), check_sq, quick=0,
+          thorough=600, describe=describe,
+          rule="thorough tier only: conditional_sq with N and / or the number of wave vectors in 266..1030. " + NT_SQ),
+    Facet("retained", retained_case_st(), check_retained, quick=80, thorough=2500, describe=describe, shards_quick=2,
+          rule="one conditional_gr and one conditional_sq problem with two contents each under the same key parameters, "
+               "4..8 interleaved evaluations, every frame kept and re-compared bit-for-bit at the end; then the caller "
+               "post-processes the frames in place and every problem is evaluated again.  non-trivial: always"),
 ]
